@@ -1,6 +1,6 @@
 (* C18 property theorems. This file contains only statements closed by
    [exact lemma] and Print Assumptions. *)
-From V Require Import Common.Base C18.Pieces C18.PiecesProofs C18.Hash C18.HashProofs C18.XXHash C18.NameProofs C18.LoopProofs C18.Ingredients C18.DeepProofs C18.Inventory C19.SubstProofs.
+From V Require Import Common.Base C18.Pieces C18.PiecesProofs C18.Hash C18.HashProofs C18.XXHash C18.NameProofs C18.LoopProofs C18.Ingredients C18.DeepProofs C18.Inventory C18.Escape C18.EscapeProofs C18.CleanProofs.
 From V Require gen.HashInventoryGen.
 
 (* breakOutputIntoPieces terminates on every output (the model's fuel always
@@ -126,7 +126,7 @@ Print Assumptions same_name_same_bytes_partial.
 (* breakOutputIntoPieces finds exactly the keys of a CLEAN text (the prefix
    occurs nowhere but at the keys, overlaps included: the first occurrence in
    data ++ prefix is at the end of data) - the converse of pieces_lossless,
-   proved in the substitution layer shared with C19 (C19/SubstProofs.v). *)
+   proved in C18/CleanProofs.v (same statements as in C19/SubstProofs.v, where they were first written). *)
 Theorem clean_text_is_split_at_its_keys : forall prefix nf nc ps,
   clean prefix nf nc ps -> break_output prefix nf nc (join_with_keys prefix ps) = Some ps.
 Proof. exact (fun prefix nf nc ps Hc => break_clean prefix nf nc ps Hc _ (Nat.lt_succ_diag_r _)). Qed.
@@ -213,3 +213,31 @@ Theorem cycle_members_hash_each_other : forall (H : bytes -> bytes) public ar ch
   (exists pre post, final_stream H public ar chunks b = Some (pre ++ iso_hash H public ca ++ post)).
 Proof. exact DeepProofs.cycle_members_hash_each_other. Qed.
 Print Assumptions cycle_members_hash_each_other.
+
+(* ---------------- after fix b608b91 (escapeFinalPath) ---------------- *)
+
+(* What escapeFinalPath writes between the quotation marks reads back - under
+   the string syntax of JavaScript/JSON resp. CSS, which rejects a bare
+   quotation mark, backslash or control character - as the path itself,
+   whatever bytes the file name contains. *)
+Theorem escaped_path_reads_back : forall isCSS p, Forall (fun c => 0 <= c < 256) p ->
+  unescape isCSS (escape_final_path isCSS p) = Some p.
+Proof. exact unescape_escape. Qed.
+Print Assumptions escaped_path_reads_back.
+
+(* references resolve, names with quotation marks / backslashes / control
+   characters included: the substituted output is data and escaped paths in
+   turn, and every escaped path decodes to the path of the file it denotes *)
+Theorem references_decode_to_emitted_paths : forall isCSS pathOf ps,
+  (forall k i, Forall (fun c => 0 <= c < 256) (pathOf k i)) ->
+  substitute_esc isCSS pathOf ps =
+    concat (map (fun p => pdata p ++ escape_final_path isCSS (ref_path pathOf p)) ps) /\
+  forall p, In p ps -> unescape isCSS (escape_final_path isCSS (ref_path pathOf p)) = Some (ref_path pathOf p).
+Proof. exact references_decode. Qed.
+Print Assumptions references_decode_to_emitted_paths.
+
+(* the byte count follows the escaping *)
+Theorem accurate_count_with_escaping : forall isCSS pathOf ps,
+  accurate_count_esc isCSS pathOf ps = Z.of_nat (length (substitute_esc isCSS pathOf ps)).
+Proof. exact accurate_count_esc_length. Qed.
+Print Assumptions accurate_count_with_escaping.
